@@ -1397,6 +1397,7 @@ impl VectorEngine {
         for key in keys {
             let _ = self.store.delete(&key);
         }
+        self.invalidate_hnsw_cache(name);
 
         Ok(())
     }
@@ -2347,6 +2348,9 @@ impl VectorEngine {
             .collect();
 
         let count = keys.len();
+        // Invalidate first: the cached index must not outlive any deleted vector,
+        // including when a delete below fails half way.
+        self.invalidate_hnsw_cache("_default");
         for key in keys {
             self.store.delete(&key)?;
         }
@@ -2935,6 +2939,7 @@ impl VectorEngine {
                 }
             })
             .count();
+        self.invalidate_hnsw_cache("_default");
 
         Ok(deleted)
     }
@@ -3305,6 +3310,7 @@ impl VectorEngine {
         }
 
         self.store.put(storage_key, tensor)?;
+        self.invalidate_hnsw_cache("_default");
         Ok(())
     }
 
